@@ -263,7 +263,19 @@ def execute(mod, tier: str, seed: int) -> int:
     # violations
     known = load_known_findings(prop)
     by_sig: dict[str, dict] = {}
+    # minimisation re-executes the implementation many times per violation; a change that breaks thousands of
+    # cases would keep the (sequential) parent busy for an hour.  After a time budget only violations of a kind
+    # not yet represented are still minimised; the others are counted (violating_cases) but not turned into
+    # further replay files.
+    budget = float(os.environ.get("VERIF_MINIMISE_BUDGET", "60" if tier == "quick" else "600"))
+    t_min = time.time()
+    kinds_seen = set()
+    skipped = 0
     for v in total.violations:
+        if time.time() - t_min > budget and v["kind"] in kinds_seen:
+            skipped += 1
+            continue
+        kinds_seen.add(v["kind"])
         if hasattr(mod, "minimise") and not v.get("_raised"):
             try:
                 v = mod.minimise(v)
@@ -272,6 +284,8 @@ def execute(mod, tier: str, seed: int) -> int:
         sig = signature_of(prop, v)
         v["signature"] = sig
         by_sig.setdefault(sig, v)
+    if skipped:
+        print(f"({skipped} further violating cases of kinds already reported were not minimised: time budget {budget:.0f}s)")
     reported = 0
     known_hit = []
     rc = 0
